@@ -414,6 +414,11 @@ def run_kernel_case(ctx, case, pend):
                                              or 1)
     wire_steps = []
     ran = 0
+    pipe_steps, pipe_ok, amb_normalised = [], True, {}   # whole-pipeline model (fid 12): see below
+    init_cv_bands = [[[ord(ch) for ch in n], qmap(cv_in["confidence_measure"].data[:, :, j])]
+                     for j, n in enumerate(names_of(cv_in) or [])] or 1
+    init_disp_bands = 0 if disp is None else ([[[ord(ch) for ch in n], qmap(disp_in["confidence_measure"].data[:, :, j])]
+                                               for j, n in enumerate(names_of(disp_in))] or 1)
     for st in case["steps"]:
         name, cfg = st["name"], copy.deepcopy(st["cfg"])
         method = cfg["confidence_method"]
@@ -480,8 +485,14 @@ def run_kernel_case(ctx, case, pend):
                 ctx.mismatch("eta_samples", replay, int(samp.shape[2]), len(etas))
                 return
             eq = [core.to_q(float(e)) for e in etas]
+            pipe_steps.append([[ord(ch) for ch in name], METHOD_CODE[method],
+                               [cfg.get("normalization", True), core.to_q(float(conf.ambiguity.Ambiguity._PERCENTILE)),
+                                eq] if method == "ambiguity" else [eq]])
+            if method == "ambiguity":
+                amb_normalised["confidence_from_ambiguity" + suf] = cfg.get("normalization", True)
             if not margins_ok(case, etas, None):
                 ctx.count("skipped_margin")
+                pipe_ok = False
                 continue
         if method == "ambiguity":
             normalised = cfg.get("normalization", True)
@@ -530,8 +541,21 @@ def run_kernel_case(ctx, case, pend):
         elif method == "interval_bounds":
             thr = cfg.get("possibility_threshold", 0.9)
             thr32 = np.float32(thr)
+            reg = 0
+            if cfg.get("regularization"):
+                ind_ = "confidence_from_ambiguity" + ("" if cfg["ambiguity_indicator"] == "" else
+                                                       "." + cfg["ambiguity_indicator"])
+                reg = [[ord(ch) for ch in ind_], core.to_q(float(cfg["ambiguity_threshold"])),
+                       cfg["ambiguity_kernel_size"], cfg["vertical_depth"],
+                       core.to_q(float(cfg["quantile_regularization"]))]
+                # the pipeline model regularises with ITS OWN ambiguity band: only an un-normalised one (integer
+                # counts, exact in float32) keeps the threshold decisions free of rounding
+                if amb_normalised.get(ind_, True) or cfg["quantile_regularization"] not in (0.0, 1.0):
+                    pipe_ok = False
+            pipe_steps.append([[ord(ch) for ch in name], METHOD_CODE[method], [core.to_q(float(thr32)), reg]])
             if not margins_ok(case, None, thr32):
                 ctx.count("skipped_margin")
+                pipe_ok = False
                 continue
             binf, bsup = new
             tq = core.to_q(float(thr32))
@@ -542,6 +566,7 @@ def run_kernel_case(ctx, case, pend):
                 amb = m.left_cv["confidence_measure"].sel({"indicator": ind}).data
                 if not np.all(np.isfinite(amb)):
                     ctx.count("skipped_nan_ambiguity")
+                    pipe_ok = False
                     continue
                 q = cfg["quantile_regularization"]
                 if q == 1.0 and two_distinct:
@@ -604,8 +629,9 @@ def run_kernel_case(ctx, case, pend):
                     for r in range(nr) for c in range(nc))
                 return (ok, band.tolist(), [[None if x is None else float(x) for x in row] for row in var]), \
                     "std:" + name, replay
-            pend.ask(11, [core.to_q(10 ** (-15)), w, [[None if x is None else F(x) for x in row]
-                                                      for row in case["img"]]], chk)
+            imgq = [[None if x is None else F(x) for x in row] for row in case["img"]]
+            pend.ask(11, [core.to_q(10 ** (-15)), w, imgq], chk)
+            pipe_steps.append([[ord(ch) for ch in name], METHOD_CODE[method], [core.to_q(10 ** (-15)), w, imgq]])
 
     # ---- WTA on the volume the confidence steps saw: bracket (spec) and model WTA (correspondence)
     try:
@@ -645,6 +671,43 @@ def run_kernel_case(ctx, case, pend):
         got = qmap(d)
         return (got == want, got, want), "wta", replay
     pend.ask(5, [is_min, vq], chk_wta)
+
+    # ---- the concrete pipeline model (Model/ConfPipeline.v: these confidence steps, then the wta disparity step,
+    #      run on the whole state) against the real datasets: disparity map, mask, names and VALUES of all bands
+    if pipe_ok and len(pipe_steps) == len(case["steps"]) and abs(float(np.nanmax(np.abs(d)))) < 1e6:
+        def chk_pipe(res, m=m, dm=dm, d=d):
+            if len(res) != 4:
+                return (False, "real run completed", res), "pipeline_model", replay
+            why = []
+            if qmap(d) != [[core.q_of(x) for x in row] for row in res[0]]:
+                why.append("disparity_map")
+            if dm["validity_mask"].data.tolist() != res[1]:
+                why.append("validity_mask")
+            for tag, ds, wire in (("disp", dm, res[2]), ("cv", m.left_cv, res[3])):
+                got = names_of(ds)
+                if wire in (0, 1):
+                    if got != ([] if wire == 1 else None):
+                        why.append(tag + " bands presence")
+                    continue
+                if got != ["".join(chr(x) for x in e[0]) for e in wire]:
+                    why.append(tag + " band names")
+                    continue
+                dd = ds["confidence_measure"].data
+                for j, e in enumerate(wire):
+                    if got[j].startswith("confidence_from_intensity_std"):
+                        # the model band holds the variance: compare the square of the real band
+                        okb = all(core.close(None if np.isnan(dd[r, c, j]) else float(dd[r, c, j]) ** 2,
+                                             core.q_of(e[1][r][c]), rel=2.0 ** -16, abs_=2.0 ** -16)
+                                  for r in range(nr) for c in range(nc))
+                    else:
+                        okb = cmp_close(dd[:, :, j], e[1])[0]
+                    if not okb:
+                        why.append(f"{tag} band {got[j]}: real {dd[:, :, j].tolist()} model "
+                                   f"{[[None if x == [] else float(core.q_of(x)) for x in row] for row in e[1]]}")
+            return (not why, [names_of(dm), names_of(m.left_cv), d.tolist()], why), "pipeline_model", replay
+        ctx.count("pipeline_model_cases")
+        pend.ask(12, [pipe_steps, init_disp_bands, init_cv_bands,
+                      [nr, nc, not is_min, 1, dq, vq, cv_in["validity_mask"].data.tolist()], 100, F(-9999)], chk_pipe)
 
     # ---- names and order of all bands in both datasets (model of allocate_confidence_map + suffix rule)
     def chk_names(res, m=m, table=table):
